@@ -234,7 +234,7 @@ def is_integer(lst: list) -> bool:
 
 
 def dump_json_with_numpy(
-    x: dict, filename: Optional[Union[str, Path]] = None
+    x: dict, filename: Optional[Union[str, Path]] = None, strict: bool = False
 ) -> Optional[str]:
     """
     Serializes dictionary ``x`` in JSON, taking into account NumPy specific
@@ -243,12 +243,19 @@ def dump_json_with_numpy(
     :param x: Dictionary to serialize or encode
     :param filename: Name of file to store JSON to. Optional. If not given,
         the JSON encoding is returned as string
+    :param strict: If True, a value which cannot be serialized raises
+        ``TypeError`` instead of being silently encoded as ``null``.
+        Defaults to False
     :return: If ``filename is None``, JSON encoding is returned
     """
 
     def np_encoder(obj):
         if isinstance(obj, np.generic):
             return obj.item()
+        if strict:
+            raise TypeError(
+                f"Object of type {type(obj).__name__} is not JSON serializable"
+            )
 
     if filename is None:
         return json.dumps(x, default=np_encoder)
